@@ -259,6 +259,29 @@ func cmdRun(args []string) int {
 						v2.ReplayOut = p.v.ReplayOut
 						v2.Reproduced = reproduced(v2, o)
 					}
+					// a counterexample that depends on the ORDER in which independent goroutines deliver their results (bag
+					// channel choices, "bagrecv" values) is one explicit schedule: native goroutine scheduling cannot be steered,
+					// so like thread counterexamples it is confirmed by re-executing the harness in the engine with the model's
+					// concrete values
+					for _, vv := range append([]*eng.Violation{p.v}, p.more...) {
+						if vv.Reproduced || !scheduleDependent(vv) {
+							continue
+						}
+						for i, r := range results {
+							if r.Name != p.h {
+								continue
+							}
+							c2 := cfg
+							c2.Fixed = vv.Values
+							r2 := eng.RunHarness(l, hs[i], c2)
+							for _, v3 := range r2.Violations {
+								if v3.Label == vv.Label {
+									vv.Reproduced = true
+								}
+							}
+							vv.ReplayOut += " | schedule-dependent (result order of independent goroutines): engine re-execution with concrete values: " + r2.Status
+						}
+					}
 				} else if p.s != nil {
 					if o.OK && o.Covered[p.s.Cover] && len(o.Failed) == 0 && o.Panicked == "" {
 						p.s.ValidatedNatively = true
@@ -465,6 +488,15 @@ func cmdReplay(args []string) int {
 	}
 	// harnesses whose environment outcomes are uninterpreted have no native realisation: re-execute in the engine
 	return engineReplay()
+}
+
+func scheduleDependent(v *eng.Violation) bool {
+	for k := range v.Values {
+		if strings.HasPrefix(k, "bagrecv#") {
+			return true
+		}
+	}
+	return false
 }
 
 func cmdSelftest(args []string) int {
